@@ -65,6 +65,9 @@ def scopes(csv, auto, ops, outs, k):
             sc.add("C10")
         if outs[j][0] == "raise":
             sc.add("C11")
+    # C11 also speaks about everything that follows a call that raised ("subsequent operations behave normally")
+    if any(outs[j][0] == "raise" and (_kind(ops[j])[0] in WRITE_KINDS) for j in range(k)):
+        sc.add("C11")
         if kj == "insert" and kind in ("insert", "iter", "all", "len"):
             sc.add("C01")                       # what was inserted is what is stored
         if kj in ("reindex", "reopen"):
